@@ -32,7 +32,11 @@ func dialConn(rawurl string, v uint8, q, thr int) (client.ClientConn, error) {
 }
 
 func framePK(i, size int) *PK {
-	return &PK{Type: 3, Cmd: uint32(100 + i%100), Codec: 1, Vals: map[string]string{}, Body: bytes.Repeat([]byte{byte(1 + i%250)}, size)}
+	p := &PK{Type: 3, Cmd: uint32(100 + i%100), Codec: 1, Vals: map[string]string{}, Body: bytes.Repeat([]byte{byte(1 + i%250)}, size)}
+	if size <= 64 && i%3 == 1 { // every third small frame is signed: plain frames follow signed ones through the header pools
+		p.Verify, p.Nonce, p.Sig = true, uint64(1000+i), bytes.Repeat([]byte{byte(i)}, 16)
+	}
+	return p
 }
 
 // compact model notation of one frame: header bytes + rep body (+ nothing else: push without verify)
@@ -445,6 +449,9 @@ func runC12(r *Run) {
 	for _, q := range qs {
 		r.c12TCPSequential(1+q%2, q, 1<<20)
 	}
+	// small frames, every third one signed (nonce + signature trailer), both versions: whole frames after the handshake
+	r.c12TCPSequential(1, 16, 24)
+	r.c12TCPSequential(2, 16, 24)
 	gs := [][4]int{{2, 40, 16, 0}, {8, 30, 16, 1024}, {16, 20, 4, 0}}
 	if r.thorough() {
 		gs = append(gs, [4]int{8, 200, 16, 1024}, [4]int{4, 100, 1, 0}, [4]int{16, 100, 8, 1})
